@@ -58,6 +58,9 @@ func nearDupPerturbations() []perturbation {
 	add("items type", obj(sgen.M{"t": sgen.M{"type": "array", "items": sgen.M{"type": "integer"}}}, nil), obj(sgen.M{"t": sgen.M{"type": "array", "items": sgen.M{"type": "string"}}}, nil), M{"t": []any{1}}, M{"t": []any{"s"}})
 	add("minItems", obj(sgen.M{"t": sgen.M{"type": "array", "items": sgen.M{"type": "integer"}}}, nil), obj(sgen.M{"t": sgen.M{"type": "array", "items": sgen.M{"type": "integer"}, "minItems": 2}}, nil), M{"t": []any{1}}, M{"t": []any{1, 2}})
 	add("default", obj(sgen.M{"t": sgen.M{"type": "integer", "default": 1}}, nil), obj(sgen.M{"t": sgen.M{"type": "integer", "default": 2}}, nil), M{}, M{"t": 5})
+	add("required with default / required without", obj(sgen.M{"t": sgen.M{"type": "integer", "default": 8080}}, sgen.M{"required": []any{"t"}}), obj(sgen.M{"t": sgen.M{"type": "integer"}}, sgen.M{"required": []any{"t"}}), M{}, M{"t": 5})
+	add("required default 1 / required default 2", obj(sgen.M{"t": sgen.M{"type": "integer", "default": 1}}, sgen.M{"required": []any{"t"}}), obj(sgen.M{"t": sgen.M{"type": "integer", "default": 2}}, sgen.M{"required": []any{"t"}}), M{}, M{"t": 5})
+	add("title only (annotation)", obj(sgen.M{"t": str(sgen.M{"minLength": 2})}, sgen.M{"title": "First"}), obj(sgen.M{"t": str(sgen.M{"minLength": 2})}, sgen.M{"title": "Second"}), M{"t": "ab"}, M{"t": "a"})
 	add("additional property set", obj(sgen.M{"t": str(nil)}, nil), obj(sgen.M{"t": str(nil), "u": sgen.M{"type": "integer"}}, nil), M{"t": "x"}, M{"t": "x", "u": 1}, M{"t": "x", "u": "s"})
 	add("nullable", obj(sgen.M{"t": sgen.M{"type": "integer"}}, sgen.M{"required": []any{"t"}}), obj(sgen.M{"t": sgen.M{"type": []any{"integer", "null"}}}, sgen.M{"required": []any{"t"}}), M{"t": 1}, M{"t": nil})
 	add("description only (annotation)", obj(sgen.M{"t": str(sgen.M{"minLength": 2})}, sgen.M{"description": "first"}), obj(sgen.M{"t": str(sgen.M{"minLength": 2})}, sgen.M{"description": "second"}), M{"t": "ab"}, M{"t": "a"})
